@@ -37,6 +37,7 @@
     `noNegZero j` for the exact YAML statement.
 -/
 import JdProofs.YamlProofs
+import JdProofs.JsonTextRoundTrip
 
 namespace Jd.Props.C16
 open Jd Jd.Yaml
@@ -127,5 +128,18 @@ example : exDoc.rawDoc = true ∧ exDoc.wf = true ∧ voidFree exDoc = true ∧ 
 example : yamlRoundTripM exDoc = .ok exDoc ∧ jsonRoundTripM exDoc = .ok exDoc :=
   ⟨yaml_round_trip exDoc (by decide) (by decide) (by decide) (by decide) (by decide),
    json_round_trip exDoc (by decide) (by decide) (by decide) (by decide)⟩
+
+/-! ## The JSON TEXT half: rendering a document as JSON and reading it back — JdProofs/JsonTextRoundTrip.lean (ns `Jd.JText`)
+
+   The theorems above are about the glue (`NewJsonNode` / `raw()`); this one is about the TEXT: `Json()` of any
+   well-formed, void-free document whose number tokens the codec round-trips (`JText.preOK nc n` = `wf ∧ voidFree ∧ NumOK nc`,
+   the strconv graph supplied by the harness) parses back to the same document up to the Go dynamic type of its arrays
+   (`rawNorm`: a typed set node is printed de-duplicated in hash order). All escapes, white space, duplicate-key and
+   fuel questions of the codec are PROVED in that file; only the number tokens are a hypothesis. -/
+
+theorem json_text_round_trip (nc : NumCodec) (n : Json)
+    (hp : n.isVoid = true ∨ Jd.JText.preOK nc n = true) :
+    ∃ s, jsonM nc n = some s ∧ readJsonM nc s = .ok (rawNorm n) :=
+  Jd.JText.readJsonM_jsonM nc n hp
 
 end Jd.Props.C16
